@@ -2,5 +2,5 @@
 # usage: onecheck.sh <patch> <props...>
 p=$1; shift
 d=$(mktemp -d /tmp/gfone.XXXX); rsync -a --exclude .git /repo/ $d/; (cd $d && patch -p1 -s < "$p") || { echo PATCHFAIL; rm -rf $d; exit; }
-for i in "$@"; do out=$(/verif/checker/bin/gfcheck -prop $i -repo $d -evidence $d/.ev/$i.json 2>&1); echo "$out" | grep -E "VIOLATED|UNDECIDED|BROKEN|LOAD-ERROR" | head -${LINES_MAX:-3} | sed "s#$d/##" | cut -c1-${CUT:-420}; echo "$out" | grep -q VIOLATION && echo "FIRED $i" || echo "silent $i"; done
+for i in "$@"; do out=$(${GFBIN:-/verif/checker/bin/gfcheck} -prop $i -repo $d -evidence $d/.ev/$i.json 2>&1); echo "$out" | grep -E "VIOLATED|UNDECIDED|BROKEN|LOAD-ERROR" | head -${LINES_MAX:-3} | sed "s#$d/##" | cut -c1-${CUT:-420}; echo "$out" | grep -q VIOLATION && echo "FIRED $i" || echo "silent $i"; done
 rm -rf $d
